@@ -349,7 +349,7 @@ func genVp9Descriptor(c *RNG) []byte {
 		}
 	}
 	if v {
-		ns := c.Intn(4)
+		ns := c.Pick(c.Intn(4), c.Intn(4), c.Intn(8)) // N_S is 3 bits: up to 8 spatial layers
 		y, g := c.Bool(), c.Bool()
 		b := byte(ns) << 5
 		if y {
@@ -363,7 +363,7 @@ func genVp9Descriptor(c *RNG) []byte {
 			out = append(out, c.Bytes(4*(ns+1))...)
 		}
 		if g {
-			ng := c.Intn(4)
+			ng := c.Pick(c.Intn(4), c.Intn(4), c.Intn(4), c.Pick(16, 255, c.Intn(256))) // N_G is a full byte
 			out = append(out, byte(ng))
 			for k := 0; k < ng; k++ {
 				r := c.Intn(4)
